@@ -160,7 +160,7 @@ func makePlaintextRedirects(allConfigs []*SiteConfig) []*SiteConfig {
 		if cfg.TLS.Enabled &&
 			!cfg.TLS.NoRedirect &&
 			!hostHasOtherPort(allConfigs, i, httpPort) &&
-			(cfg.Addr.Port == httpsPort || !hostHasOtherPort(allConfigs, i, httpsPort)) {
+			(cfg.Addr.Port == httpsPort || !hostHasOtherTLSPort(allConfigs, i, httpsPort)) {
 			allConfigs = append(allConfigs, redirPlaintextHost(cfg))
 		}
 	}
@@ -177,6 +177,23 @@ func hostHasOtherPort(allConfigs []*SiteConfig, thisConfigIdx int, otherPort str
 		}
 		if otherCfg.Addr.Host == allConfigs[thisConfigIdx].Addr.Host &&
 			otherCfg.Addr.Port == otherPort {
+			return true
+		}
+	}
+	return false
+}
+
+// hostHasOtherTLSPort is like hostHasOtherPort, but only counts configs that
+// have TLS enabled: a site of the same host that serves plain HTTP on
+// otherPort is not an HTTPS site that will get the redirect instead.
+func hostHasOtherTLSPort(allConfigs []*SiteConfig, thisConfigIdx int, otherPort string) bool {
+	for i, otherCfg := range allConfigs {
+		if i == thisConfigIdx {
+			continue
+		}
+		if otherCfg.Addr.Host == allConfigs[thisConfigIdx].Addr.Host &&
+			otherCfg.Addr.Port == otherPort &&
+			otherCfg.TLS != nil && otherCfg.TLS.Enabled {
 			return true
 		}
 	}
